@@ -205,6 +205,13 @@ def run(ctx):
                          {"type": "record", "name": "n.B", "fields": [{"name": "c", "type": {"type": "array", "items": "n.C"}}]}],
         {"type": "record", "name": "n.A", "fields": [{"name": "b", "type": "n.B"}, {"name": "c2", "type": ["null", "C"]}]}))
 
+    # witness: a recursive record R and an enum b.R parsed separately (io/parser.py tests `schema_name in field["type"]`,
+    # a substring test when the field type is the reference string "b.R")
+    work.append(({"type": "record", "name": "R", "fields": [{"name": "n", "type": ["null", "R"]},
+                                                            {"name": "e", "type": {"type": "enum", "name": "b.R", "symbols": ["A"]}}]},
+                 ["b.R"], [{"type": "enum", "name": "b.R", "symbols": ["A"]}],
+                 {"type": "record", "name": "R", "fields": [{"name": "n", "type": ["null", "R"]}, {"name": "e", "type": "b.R"}]}))
+
     # ---- model: canonical form of the piecewise parse, idempotence
     exprs = []
     for s, sub, pieces, parent in work:
